@@ -16,3 +16,7 @@ mod utils;
 
 pub use self::error::*;
 pub use self::fs::FileSystem;
+
+#[cfg(s3s_verif)]
+#[doc(hidden)]
+pub use self::fs::__VERIF_MIN_PART_SIZE;
